@@ -39,26 +39,30 @@ Init == t \in Atoms /\ d = 0 /\ TLCSet(1, 0) /\ TLCSet(2, 0)
 Next == d < MaxDepth /\ t' \in Grow(t) /\ d' = d + 1
 
 Defect(ty, v) == ExVoidTuple(ty, v) \/ ExVoidMultiVariant(ty, v)
-LayoutLaws(ty, v) == DecodeLaw(Mode, ty, v) /\ EncodeLaw(Mode, ty, v)
-OwnLaws(ty, v) == RoundTripLaw(Mode, ty, v) /\ BalanceLaw(Mode, ty, v)
 ArgLists == <<<<t, TVoid, TInt>>, <<TStr, t>>>>
 ArgVals(ts, j) == [q \in 1..Len(ts) |-> ValAt(ts[q], (j + q) % 3)]
 
-Count(slot, n) == TLCSet(slot, TLCGet(slot) + n)
+Count(slot) == TLCSet(slot, TLCGet(slot) + 1)
 
 Laws ==
   IsVoid(t) \/
-  /\ \A j \in 0..2 :
-       LET v == ValAt(t, j)
-       IN /\ OwnLaws(t, v)
-          /\ IF Mode = "spec" THEN LayoutLaws(t, v) ELSE (LayoutLaws(t, v) <=> ~Defect(t, v))
-          /\ \A a \in 1..Len(ArgLists) :
-               LET vs == ArgVals(ArgLists[a], j)
-                   bad == \E q \in 1..Len(vs) : ~IsVoid(ArgLists[a][q]) /\ Defect(ArgLists[a][q], vs[q])
-               IN IF Mode = "spec" THEN CallLaw(Mode, ArgLists[a], vs)
-                  ELSE (CallLaw(Mode, ArgLists[a], vs) <=> ~bad)
-  /\ Count(1, Cardinality({j \in 0..2 : ~Defect(t, ValAt(t, j))}))
-  /\ Count(2, Cardinality({j \in 0..2 : Defect(t, ValAt(t, j))}))
+  \A j \in 0..2 :
+    LET v == ValAt(t, j)
+        law == LawsAt(Mode, t, v)
+        def == Defect(t, v)
+    IN /\ law.roundtrip /\ law.balance
+       /\ IF Mode = "spec" THEN law.decode /\ law.encode ELSE ((law.decode /\ law.encode) <=> ~def)
+       /\ \A a \in 1..Len(ArgLists) :
+            LET vs == ArgVals(ArgLists[a], j)
+                bad == \E q \in 1..Len(vs) : ~IsVoid(ArgLists[a][q]) /\ Defect(ArgLists[a][q], vs[q])
+            IN IF Mode = "spec" THEN CallLaw(Mode, ArgLists[a], vs)
+               ELSE (CallLaw(Mode, ArgLists[a], vs) <=> ~bad)
+       /\ Count(IF def THEN 2 ELSE 1)
+
+\* for demonstration (not used by the check): the layout laws without the allowance; with Mode = "code"
+\* TLC reports the first type of the defect family as a counterexample (cfg C36Abi_strict.cfg)
+StrictLaws ==
+  IsVoid(t) \/ \A j \in 0..2 : LET law == LawsAt(Mode, t, ValAt(t, j)) IN law.decode /\ law.encode
 
 Post == PrintT(<<"C36ABI", Mode, "pairs_ok", TLCGet(1), "pairs_defect", TLCGet(2)>>)
 =============================================================================
